@@ -18,4 +18,12 @@ def srcWrites : Bool :=
 /-- does a `_to_jds` / `to_jds` of the tree under test return one of its arguments (or a view of it) un-copied -/
 def srcAliases : Bool := inplace.any (fun e => e.kind == "return" && e.detail == "to_jds")
 
+/-- are all reflected / in-place operator methods of the tree under test stubs that return `NotImplemented`, is `+`/`-` only
+defined by the two base classes, and does no class take NumPy's ufunc dispatch into its own hands -/
+def srcReflRefuses : Bool :=
+  operators.all (fun o =>
+    (o.1 == "TimeArray" || o.1 == "TimeDeltaArray") &&
+    (if o.2.1 == "__add__" || o.2.1 == "__sub__" then o.2.2 == "computes"
+     else (o.2.1 == "__radd__" || o.2.1 == "__rsub__" || o.2.1 == "__iadd__" || o.2.1 == "__isub__") && o.2.2 == "refuses"))
+
 end Midgard.TimeArith
